@@ -80,6 +80,17 @@ def _sig_hash(s):
 def _work(prop, batch_seed, a, b, tier, per_task_timeout, nsamples):
     engine = load_engine(prop)
     faulthandler.dump_traceback_later(per_task_timeout, exit=True)
+    limit = getattr(engine, "WORKER_RLIMIT_AS", None)
+    if limit:
+        # engines whose workers only need NumPy cap their address space: a decoder that asks for an absurd buffer then
+        # gets MemoryError (observable, judged) instead of the kernel killing the worker (a harness error)
+        import resource
+
+        try:
+            soft, hard = resource.getrlimit(resource.RLIMIT_AS)
+            resource.setrlimit(resource.RLIMIT_AS, (int(limit), hard))
+        except (ValueError, OSError):
+            pass
     out = {
         "a": a,
         "b": b,
@@ -203,3 +214,42 @@ def run_batch(prop, batch_seed, tier, nruns, budget_s, workers=None, chunk=None,
         rep.errors.extend(r["errors"])
     rep.wall = time.monotonic() - t0
     return rep
+
+
+def execute_isolated(engine, scn):
+    """Execute a scenario in a forked child of this (clean) process and return its Result. Used while minimising: the
+    code under test may keep module-level state, so re-executions must not see each other's leftovers (and a replay in
+    a fresh interpreter must see what the minimiser saw)."""
+    import pickle
+
+    from .trace import Result
+
+    rfd, wfd = os.pipe()
+    sys.stdout.flush()
+    sys.stderr.flush()
+    pid = os.fork()
+    if pid == 0:
+        code = 1
+        try:
+            os.close(rfd)
+            res = execute_scenario(engine, scn)
+            d = res.to_dict()
+            with os.fdopen(wfd, "wb") as f:
+                pickle.dump(d, f)
+            code = 0
+        except BaseException:  # noqa: B902
+            code = 3
+        finally:
+            os._exit(code)
+    os.close(wfd)
+    with os.fdopen(rfd, "rb") as f:
+        data = f.read()
+    os.waitpid(pid, 0)
+    res = Result()
+    if not data:
+        res.verdict = "ERROR"
+        return res
+    d = pickle.loads(data)
+    for k in ("verdict", "vclass", "detail", "facts", "digest", "events", "faults", "probes", "signature", "nontrivial"):
+        setattr(res, k, d[k])
+    return res
